@@ -56,8 +56,10 @@ def build_plan(tier, nruns=None, seed=0):
     plan = []
     tps = _sweep_kinds(tier, seed)
     if tier == "quick":
-        for t in tps:
-            plan.append(("samekind", t.kind, False))
+        for n_, t in enumerate(tps):
+            # (a third of the same-kind storms also get an injected fault: a caller
+            #  interrupted while another one waits for it or shares its work)
+            plan.append(("samekind", t.kind, (n_ + seed) % 3 == 0))
         for t in tps:
             plan.append(("firstuse", t.kind, True))
         nrand = 1000
@@ -67,7 +69,7 @@ def build_plan(tier, nruns=None, seed=0):
         for i in range(6):
             plan.append(("cold-order", pr.randrange(720), False))
         directed = (("crosssuite", 28), ("sharedvals", 48), ("classchurn", 48), ("soak", 6),
-                    ("usersuites", 20))
+                    ("usersuites", 20), ("reentrant", 12))
     else:
         for rep in range(3):
             for t in tps:
@@ -80,7 +82,7 @@ def build_plan(tier, nruns=None, seed=0):
         for i in range(720):
             plan.append(("cold-order", i, False))
         directed = (("crosssuite", 400), ("sharedvals", 600), ("classchurn", 600),
-                    ("soak", 320), ("usersuites", 300))
+                    ("soak", 320), ("usersuites", 300), ("reentrant", 200))
     for name, cnt in directed:
         for i in range(cnt):
             plan.append((name, None, i % 4 == 3))
@@ -96,7 +98,8 @@ def build_plan(tier, nruns=None, seed=0):
     def heavy(e):
         if e[0] in ("samekind", "firstuse"):
             return G.BY_KIND[e[1]].cost >= 100
-        return e[0] in ("random-heavy", "cold", "cold-order", "soak", "crosssuite", "usersuites")
+        return e[0] in ("random-heavy", "cold", "cold-order", "soak", "crosssuite", "usersuites",
+                        "reentrant")
     if tier == "quick":
         first = [e for e in plan if heavy(e)]
         rest = [e for e in plan if not heavy(e)]
@@ -148,6 +151,8 @@ def make_spec(server, seed, index, tier, entry):
         spec = g.scn_sharedvals(faults=faults)
     elif scen == "usersuites":
         spec = g.scn_usersuites(faults=faults)
+    elif scen == "reentrant":
+        spec = g.scn_reentrant(faults=faults)
     elif scen == "soak":
         spec = g.scn_soak(n=380 if not thorough else rng.choice([380, 600, 1100]),
                           max_cost=12.0 if not thorough else rng.choice([12.0, 12.0, 120.0]),
@@ -447,7 +452,10 @@ def main():
             return True
         except FileExistsError:
             return False
+    ppid0 = os.getppid()
     for index in job["indices"]:
+        if os.getppid() != ppid0:
+            return 4                      # the master is gone: nobody is listening
         if deadline is not None and time.monotonic() - t_start > deadline:
             print(json.dumps({"type": "deadline", "next_index": index}))
             break
